@@ -1114,6 +1114,33 @@ func runNoHint() {
 		})
 	chk.Sample("nohint", rtCase{Sub: "nohint", Text: fmt.Sprintf("%+q", "ｱｶa"), TextHex: hx("ｱｶa")})
 
+	// every code point: the guess of the encoding of an undesignated byte segment looks at byte
+	// patterns, and whole blocks of the code space share one pattern (e.g. U+0800..U+0FFF: lead byte
+	// E0, second byte A0..BF) that no character of the small alphabet above has. Every code point of
+	// the Basic Multilingual Plane (thorough: of all planes) alone and in six contexts
+	type span struct{ lo, hi rune }
+	var spans []span
+	top := rune(0xFFFF)
+	if !chk.Quick() {
+		top = 0x10FFFF
+	}
+	for lo := rune(0); lo <= top; lo += 512 {
+		spans = append(spans, span{lo, lo + 511})
+	}
+	ctxs := []string{"%s", "a%s", "%sa", "%s%s", "a%sb", "%sé", "x%s%sy"}
+	chk.Range(fmt.Sprintf("(4c) no hint: EVERY code point U+0000..U+%04X (surrogates excluded) alone and in %d contexts (after / before a letter, doubled, between letters, before an accented letter, doubled between letters): write -> read == text", top, len(ctxs)-1), len(spans),
+		func(i int) string { return fmt.Sprintf("U+%04X..U+%04X", spans[i].lo, spans[i].hi) },
+		func(l *mc.Local, i int) {
+			for r := spans[i].lo; r <= spans[i].hi && r <= top; r++ {
+				if r >= 0xD800 && r <= 0xDFFF {
+					continue
+				}
+				for _, c := range ctxs {
+					noHintOne(l, strings.ReplaceAll(c, "%s", string(r)))
+				}
+			}
+		})
+
 	// long texts: lower-case ASCII filler of every listed total length with ONE or TWO non-ASCII
 	// characters at the start, near the middle, and at the very end (a decoder that judges the
 	// encoding from part of the bytes, or whose counters overflow/saturate, shows only here)
